@@ -395,3 +395,92 @@ def c15_language_guards(ctx):
         obs.append({"name": name, "kind": "syntactic", "solver": "ast", "ms": 0.0, "verdict": "discharged" if why is None else "refuted",
                     "note": why or note, "model_inputs": {"rule": r, "reason": why} if why else None, "witness_confirmed": bool(why)})
     return obs
+
+
+# ---- (2c) bounded native check: the language of a file is decided by that file alone -----------------------------------
+_PER_FILE = r'''
+import json, os, sys, tempfile, shutil, logging, itertools
+sys.path.insert(0, os.environ["VERIF_REPO"])
+logging.disable(logging.CRITICAL)
+from pathlib import Path
+from src.orchestrator.core import Orchestrator
+
+PY = "def f(x):\n    return x * 4711 + 1234\n"
+TS = "export function f(x: number): number {\n  return x * 4711 + 1234;\n}\n"
+# name -> (content, language the property assigns: by extension, case-insensitively; extensionless: python shebang)
+FILES = {
+    "a.py": (PY, "python"), "B.PY": (PY, "python"), "c.ts": (TS, "typescript"), "d.JS": (TS.replace(": number", ""), "javascript"),
+    "script": ("#!/usr/bin/env python3\n" + PY, "python"),          # extensionless script with a python shebang
+    "Tiltfile": (PY, None),                                         # extensionless, python-looking, NO shebang: unknown
+    "run": ("#!/bin/sh\necho 4711 1234\n", None),                   # extensionless, other shebang: unknown
+    "notes.txt": (PY, None), "data.csv": ("4711,1234\n", None),     # unrecognised extensions
+}
+
+def per_file(vs):
+    out = {}
+    for v in vs:
+        if v.rule_id.startswith(("dry.", "stringly-typed")):
+            continue  # cross-file rules
+        out.setdefault(Path(v.file_path).name, []).append(json.dumps(v.to_dict(), sort_keys=True, default=str))
+    return {k: sorted(x) for k, x in out.items()}
+
+def fresh(root):
+    o = Orchestrator(project_root=root)
+    o.config = {}
+    return o
+
+bad, n = [], 0
+tmp = Path(tempfile.mkdtemp(prefix="c15lang_"))
+try:
+    (tmp / ".git").mkdir()
+    for name, (content, _) in FILES.items():
+        (tmp / name).write_text(content, encoding="utf-8")
+    alone = {name: per_file(fresh(tmp).lint_files([tmp / name])).get(name, []) for name in FILES}
+    for name, (_, lang) in FILES.items():
+        n += 1
+        src = [json.loads(x)["rule_id"] for x in alone[name] if json.loads(x)["rule_id"].startswith("magic-numbers")]
+        if lang is None and src:
+            bad.append({"file": name, "problem": "unrecognised file type yields source-analysis violations", "rules": src})
+        if lang is not None and not src:
+            bad.append({"file": name, "problem": f"{lang} file was not analysed (no magic-number finding)"})
+    for x, y in itertools.permutations(FILES, 2):
+        n += 1
+        got = per_file(fresh(tmp).lint_files([tmp / x, tmp / y]))
+        for name in (x, y):
+            if got.get(name, []) != alone[name]:
+                bad.append({"order": [x, y], "file": name, "alone": len(alone[name]), "in_run": len(got.get(name, [])),
+                            "problem": "findings of a file depend on the other file of the run"})
+finally:
+    shutil.rmtree(tmp, ignore_errors=True)
+print("RESULT=" + json.dumps({"cases": n, "bad": bad[:20]}))
+'''
+
+
+@custom("c15-language-per-file-bounded", props=["C15"])
+def c15_language_per_file(ctx):
+    """BOUNDED NATIVE CHECK (not a proof; listed under `bounded`). Property text: "A file is analysed as Python,
+    TypeScript, JavaScript or Rust according to ITS extension (case-insensitively; extensionless scripts by a python
+    shebang) ... a file of an unrecognised type yields no source-analysis violation." On the real Orchestrator.lint_files:
+    9 file kinds (known extensions in both cases, extensionless with python / other / no shebang, unrecognised
+    extensions); every file alone gets the documented treatment, and in every ordered pair of files each file's
+    per-file findings are exactly those it gets alone (language detection has no memory across files). The symbolic
+    counterpart is the contract of Orchestrator.lint_file (contracts/c10_orchestrator.py: language == detect_language_spec
+    of that file) together with detect_language (contracts/c15_language.py)."""
+    import time
+    t0 = time.time()
+    p = subprocess.run([sys.executable, "-c", _PER_FILE], capture_output=True, text=True, timeout=900,
+                       env=dict(os.environ, VERIF_REPO=ctx["repo"], PYTHONWARNINGS="ignore"), cwd="/tmp")
+    res = None
+    for line in p.stdout.splitlines():
+        if line.startswith("RESULT="):
+            res = json.loads(line[7:])
+    name = "c15-language-per-file-bounded"
+    if res is None:
+        return [{"name": name, "kind": "bounded", "verdict": "refuted", "tool": "cpython differential", "budget": "-", "cases": 0,
+                 "note": "the differential run failed: " + (p.stderr or p.stdout)[-600:], "witness_confirmed": True,
+                 "model_inputs": {"stderr": (p.stderr or "")[-1500:]}, "ms": round((time.time() - t0) * 1000)}]
+    bad = res["bad"]
+    return [{"name": name, "kind": "bounded", "verdict": "passed" if not bad else "refuted", "tool": "cpython differential",
+             "budget": "9 file kinds alone + all 72 ordered pairs", "cases": res["cases"],
+             "note": "" if not bad else f"{bad[:2]}", "witness_confirmed": bool(bad),
+             "model_inputs": {"disagreements": bad} if bad else None, "ms": round((time.time() - t0) * 1000)}]
